@@ -97,8 +97,8 @@ def swallowed_value_errors(ctx, rule):
         for r in walk_no_nested(fn):
             if isinstance(r, _ast.Raise) and r.exc is not None and 'ValueError' in _ast.unparse(r.exc)[:30]:
                 n += 1
-                ok = fid in ALLOWED and (ALLOWED[fid] is None or ALLOWED[fid] in _ast.unparse(r.exc) or
-                                         any(ALLOWED[fid] in _ast.unparse(t) for t, pol in cond_guards(CFG(fn), r)))
+                ok = fid in ALLOWED and (ALLOWED[fid] is None or
+                                         any(pol and ALLOWED[fid] in _ast.unparse(t) for t, pol in cond_guards(CFG(fn), r)))
                 ctx.inst(rule, fid, repo.norm(r)[:110], ok,
                          'the documented reason for the swallow / raised after the defaults were installed' if ok else
                          'this ValueError is raised while the configuration is read and is swallowed by `except ValueError: pass` in '
